@@ -13,13 +13,15 @@ sv=/tmp/sv-$name; git -C /repo worktree remove --force $sv 2>/dev/null; git -C /
 res() { echo "$1" | tee -a $out/confirm.log; }
 : > $out/confirm.log
 cd $sv
+moddir=${SEED_MODDIR:-.}; pkg=${SEED_PKG:-./vgirpc}; demodir=${SEED_DEMODIR:-vgirpc}
 if ! git apply --check $out/patch.diff 2>/dev/null; then res "patch: DOES NOT APPLY to current /repo HEAD"; git -C /repo worktree remove --force $sv; exit 3; fi
-cp $out/zz_seeded_demo_test.go vgirpc/
-d0=$(go test -vet=off -count=1 -timeout 600s -run '^TestSeededDemo$' ./vgirpc 2>&1 | tail -3); echo "$d0" | grep -q "^ok" && res "demo without change: PASS" || res "demo without change: FAIL ($d0)"
-git apply $out/patch.diff
+cp $out/zz_seeded_demo_test.go $demodir/
+cd $moddir
+d0=$(go test -vet=off -count=1 -timeout 600s -run '^TestSeededDemo$' $pkg 2>&1 | tail -3); echo "$d0" | grep -q "^ok" && res "demo without change: PASS" || res "demo without change: FAIL ($d0)"
+(cd $sv && git apply $out/patch.diff)
 go build ./... 2>&1 | tail -3 && res "build with change: ok"
-s1=$(go test -vet=off -count=1 -timeout 900s -skip TestSeededDemo ./vgirpc 2>&1 | tail -2); echo "$s1" | grep -q "^ok" && res "existing suite with change: PASS" || res "existing suite with change: FAIL ($s1)"
-d1=$(go test -vet=off -count=1 -timeout 600s -run '^TestSeededDemo$' ./vgirpc 2>&1 | tail -15); echo "$d1" | grep -q "FAIL" && res "demo with change: FAIL (as required)" || res "demo with change: PASS (not a valid seed)"
+s1=$(go test -vet=off -count=1 -timeout 900s -skip TestSeededDemo $pkg 2>&1 | tail -2); echo "$s1" | grep -q "^ok" && res "existing suite with change: PASS" || res "existing suite with change: FAIL ($s1)"
+d1=$(go test -vet=off -count=1 -timeout 600s -run '^TestSeededDemo$' $pkg 2>&1 | tail -15); echo "$d1" | grep -q "FAIL" && res "demo with change: FAIL (as required)" || res "demo with change: PASS (not a valid seed)"
 echo "$d1" > $out/demo_output_with_change.txt
 cd /verif; git -C /repo worktree remove --force $sv
 # our check
